@@ -247,6 +247,7 @@ func (p *Parser) next() {
 		return
 	}
 	p.spaced = false
+	p.eqlOffs = 0 // only meaningful for the literal we are about to read, if any
 	if p.quote&allKeepSpaces != 0 {
 		p.nextKeepSpaces()
 		return
